@@ -20,6 +20,17 @@ import (
 
 // Serve is the child main loop.
 func Serve(eval func(*core.Case) core.Verdict) {
+	// An executor must not outlive its parent: a case that spins inside the engine never
+	// comes back to read the closed pipe, and a killed parent cannot kill it any more.
+	go func() {
+		pp := os.Getppid()
+		for {
+			time.Sleep(2 * time.Second)
+			if os.Getppid() != pp {
+				os.Exit(3)
+			}
+		}
+	}()
 	in := os.NewFile(3, "verif-in")
 	out := os.NewFile(4, "verif-out")
 	rd := bufio.NewReaderSize(in, 1<<20)
